@@ -30,6 +30,49 @@ CLAIMED = {
         technique="Lean 4 proof (NoLeak invariant + counting argument) on a hand-written model; differential correspondence check + executable peak monitor",
         design="7/C17", note=WORLD_NOTE + " Finding F1 (fixed: 6e6c7d5) recorded in known_findings.txt."),
 }
+STORE_NOTE = ("Theorems are about the hand-written Lean model (lean/SpecsModel/Model/{Storages,Storage,World}.lean mirroring storage/*.rs, world_ext.rs, lazy.rs); "
+              "the model and the abstract spec (Spec/WorldSpec.lean) are tied to /repo's working tree by the differential run only (seeded random histories over 12 storage kinds, "
+              "bounded-exhaustive per-kind alphabets). Trusted: Lean kernel, axioms propext/Classical.choice/Quot.sound, harness, line protocol, bin/check; shrev EventChannel = append-only log, "
+              "crossbeam SegQueue = FIFO, hibitset BitSet = finite set (Level A); indices < 2^24; handles passed to ops were returned earlier by the same world.")
+CLAIMED.update({
+    "C03": dict(
+        text="Lean theorems C03.get_dead / contains_dead / getMut_dead / insert_dead / remove_dead / entry_dead / getMutOrDefault_dead / getOther_dead / world_dead_handle_inert: for EVERY storage state of "
+             "every kind and every allocator state, each handle-taking access path through a handle the allocator reports dead returns the absent result and leaves the whole masked storage (mask, contents, "
+             "event channel) literally unchanged; lifted to the world model for any history. The abstract WorldSpec monitor (dead handle => absent) runs on the implementation's transcripts; stale-heavy random and "
+             "bounded-exhaustive histories compare the real World with the model line by line.",
+        technique="Lean 4 proof (per-path lemmas on a hand-written model, universally quantified over states) + differential correspondence check + executable abstract-spec monitor",
+        design="7/C03", note=STORE_NOTE + " The lending-join lookup path is covered with C06."),
+    "C11": dict(
+        text="Lean theorems on an executable model of shred 0.16.1's stage builder (insert/insertion_target/find_conflict/remove_ids/improves_balance, barriers, group capacity) and of dispatch execution "
+             "(stages in order, groups of a stage in any interleaving of atomic steps, AtomicRefCell counters). For every item list: the builder never panics and places every system exactly once "
+             "(placed_exactly_once), parallel groups never conflict (parallel_groups_conflict_free), dependencies sit in an earlier stage or earlier in the same group (dependencies_placed_before). Given "
+             "borrowed = declared (specs_table, specs_tuples_borrow_what_they_declare: proved for the specs table and all tuples), for every schedule: no fetch panics (no_fetch_panics), a writer never overlaps "
+             "another reader or writer (writer_never_overlaps), every system runs exactly once (every_system_runs_exactly_once), no deadlock (dispatch_always_completes), dependencies respected at run time. "
+             "Correspondence: the real DispatcherBuilder layout, the reads()/writes() vectors and the post-fetch borrow state are compared with the model on >1e5 (quick) random graphs; the same graphs are "
+             "dispatched on rayon pools of 1-16 threads with instrumented reader/writer counters.",
+        technique="Lean 4 proof (builder invariant, execution invariant tying cell counters to outstanding guards, termination measure) on a hand-written model of shred's dispatcher + differential check of "
+                  "layout and declaration table + executable monitor over instrumented parallel runs",
+        design="7/C11",
+        note="Theorems are about the model only. shred 0.16.1 and rayon are modelled, not verified: the builder and the declaration table are tied to the crates by the differential run; the execution semantics "
+             "(one rayon task per group, join between stages, fetch = sequence of cell borrows, guards dropped before run_now returns) is an assumption checked only by sampled instrumented runs; hardware memory "
+             "model not modelled. Side condition SelfOk (a system's own data tuple must not conflict with itself) is a documented specs restriction, discharged by evaluation for the 108 harness system types. "
+             "Not covered: batch/thread-local/async dispatchers, setup/dispose, fetches outside SystemData. Trusted: Lean kernel, propext/Classical.choice/Quot.sound, harness, protocol, bin/check."),
+    "C18": dict(
+        text="Lean theorems over the whole grammar of type definitions (named/tuple structs, enums with unit/tuple/named variants, any field count, nesting to any depth, generic parameters by dictionary "
+             "passing, skip and forwarded attributes): named_struct_into / tuple_struct_into / enum_into / struct_from / enum_from / field_into / field_from / entity_into (derived conversions are the field-wise "
+             "definitions: i-th field by the i-th field's own conversion, variant to same-named variant, skipped fields cloned, entities through the marker mapping); round_trip and round_trip_shape "
+             "(convert_from(convert_into v) = Ok v whenever ents inverts ids on the visited entities); missing_marker_panics / into_outcomes / from_outcomes (a missing marker is exactly the unwrap panic); "
+             "data_field_attrs / data_field_type / data_struct_fields / data_enum_variants (generated data type); storage_default / storage_explicit / storage_implicit_self / storage_append_iff (impl_component). "
+             "Correspondence: a seeded program generator emits crates using the real derives on 80 (quick) / 1200 (thorough) drawn definitions plus a corpus, runs them on random values and marker mappings and the "
+             "compiled Lean driver predicts every line (data JSON, round-trip verdicts, panic, storage type); a compile error of a generated program is a failure.",
+        technique="Lean 4 proof (logical relation + mutual structural induction over a nested inductive grammar) on a hand-written model of the macros' meaning + generated-program differential check against "
+                  "the real macros + executable monitor",
+        design="7/C18",
+        note="Theorems are about the hand-written Lean model of the macros' MEANING (which impl each generated ConvertSaveload call resolves to, evaluation order, clone for skipped fields, the data type as "
+             "syntax), not their token output. rustc's type checking and trait resolution of the generated code is trusted. Tied to /repo's specs-derive and src/saveload/mod.rs by the differential run only. Also "
+             "trusted: serde/serde_json and SimpleMarker's Serialize as modelled by Derive/Json.lean, std::any::type_name rendering, h_derive.rs, Lean kernel, axioms propext/Quot.sound. Error = Infallible: a "
+             "missing marker is an Option::unwrap panic. Integer ranges and string escaping not modelled."),
+})
 checks = []
 for pid in ALL:
     if pid in CLAIMED:
